@@ -304,9 +304,25 @@ def _late_scenario(draw):
           'hooks': None}
 
 
+@st.composite
+def _skip_then_register(draw):
+  """A spelling is skipped as unknown (skip_unknown), then a configurable it matches is registered,
+  then the very same spelling is used again under skip_unknown: it is known now and must bind."""
+  fn = draw(st.sampled_from(FNS))
+  m = draw(st.sampled_from([x for x in MODS if x]))
+  other = 'zq.' + ('g' if fn != 'g' else 'h')
+  late = m + '.' + fn
+  j = draw(st.integers(0, len(late.split('.')) - 1))
+  kind = draw(st.sampled_from(['parse_skip', 'parse_skip_block']))
+  scope = draw(st.sampled_from(SCOPES))
+  ops = [[kind, 1, j, scope, 'p', 1], ['register', 0], [kind, 1, j, scope, 'p', 2],
+         [draw(st.sampled_from(['query', 'get_bindings', 'get_configurable'])), 1, j, scope, 'p']]
+  return {'layer': 'api', 'names': [other], 'late': [late], 'consts': [], 'ops': ops, 'hooks': None}
+
+
 def strategy():
   return st.one_of(st.builds(lambda ops: {'layer': 'map', 'ops': ops}, _map_ops()), _api_case(),
-                   _api_case(), _late_scenario())
+                   _api_case(), _late_scenario(), _skip_then_register())
 
 
 def _mk_probe(tag):
